@@ -18,19 +18,23 @@ def open_findings(prop):
 
 
 def write_evidence(prop, tier, seed, coverage, wall_s, violations, assumptions=(), level='model_checking'):
-    os.makedirs(os.path.join(VERIF, 'evidence'), exist_ok=True)
+    sub = os.environ.get('VERIF_WORK')      # seedtest runs do not overwrite the committed evidence
+    edir = os.path.join(VERIF, '.work', sub, 'evidence') if sub else os.path.join(VERIF, 'evidence')
+    os.makedirs(edir, exist_ok=True)
     doc = {'property_id': prop, 'tier': tier, 'seed': int(seed), 'level': level,
            'coverage': coverage, 'assumptions': list(assumptions), 'wall_s': round(float(wall_s), 2),
            'violations': int(violations)}
-    path = os.path.join(VERIF, 'evidence', prop + '.json')
+    path = os.path.join(edir, prop + '.json')
     with open(path, 'w') as f:
         json.dump(doc, f, indent=1, sort_keys=True, default=str)
     return path
 
 
 def write_replay(prop, n, doc):
-    os.makedirs(os.path.join(VERIF, 'replays'), exist_ok=True)
-    path = os.path.join(VERIF, 'replays', '%s-%d.json' % (prop, n))
+    sub = os.environ.get('VERIF_WORK')
+    rdir = os.path.join(VERIF, '.work', sub, 'replays') if sub else os.path.join(VERIF, 'replays')
+    os.makedirs(rdir, exist_ok=True)
+    path = os.path.join(rdir, '%s-%d.json' % (prop, n))
     with open(path, 'w') as f:
         json.dump(doc, f, indent=1, default=str)
     return os.path.relpath(path, VERIF)
